@@ -44,7 +44,7 @@ CHECKS = {
     'C08': "Proved (all built globs x all texts): the partition equation at the level of the documented language (C08_partition_preserves_the_language: the texts of the "
            "glob are the invariant prefix followed by the texts of the postfix; a tree wildcard after the prefix gives up its separator; the prefix may be any run of "
            "tokens with invariant text; C08_partition_without_prefix for globs without prefix or beginning with a rooted tree wildcard) and idempotence "
-           "(C08_partition_is_idempotent: partitioned again, the postfix yields an empty prefix and itself, outside the known class rooted_repetition). "
+           "(C08_partition_is_idempotent: partitioned again, the postfix yields an empty prefix and itself, outside the known class rooted_repetition); the capture spans of the postfix lie in the displayed suffix on character boundaries (C08_postfix_capture_spans_are_relative_to_the_suffix). "
            "Proved: partitioning a built glob is total up to checked overflow (C08_partition_is_total_up_to_overflow: the top-level tokens tile the expression, so the "
            "popped bytes end where a token begins and an unrooted tree wildcard skips one ASCII character; the postfix always re-annotates); the display-suffix "
            "arithmetic (dropping the popped bytes leaves the suffix on a character boundary). Tie: every observable of partition() vs the model. "
@@ -73,7 +73,7 @@ CHECKS = {
            "has_semantic_literals(). Oracle: matched paths of always-rooted patterns; globs never Sometimes (one known class); `.`/`..` components at any depth.",
     'C17': "Proved (all strings): every span of the token tree of an expression that parses, every capture span, every location of a parse error and the span of every "
            "rule error delimit whole characters of the expression (within bounds, on character boundaries) - by induction over the fuelled model of the nom grammar and "
-           "the breadth-first rule checker. Tie: every error and capture span vs the span-annotated parser model. "
+           "the breadth-first rule checker; after partition the capture spans of the postfix lie in the displayed suffix (C17_postfix_capture_spans_lie_in_the_suffix). Tie: every error and capture span vs the span-annotated parser model. "
            "Oracle: bounds and character boundaries of every span, capture slices re-parse to the captured token kind, also after partition.",
     'C18': "Proved end to end in the model of the build pipeline (all strings): C18_escape_builds_a_glob_for_exactly_the_text - for every string without backslash, "
            "without two adjacent separators and shorter than the invariant size limit, build(escape s) is a glob (it parses into literals and separators that spell s - "
